@@ -419,11 +419,14 @@ func instrumentFile(p *packages.Package, f *ast.File, src []byte, root string) [
 				summary.Unsupported = append(summary.Unsupported, "time."+sel.Sel.Name+"@"+rel(x.Pos()))
 			}
 			if pk, isPkg := p.TypesInfo.Uses[identOf(sel.X)].(*types.PkgName); isPkg && !inConsumed(off(x.Pos()), off(x.End())) {
-				if (pk.Imported().Path() == "time" && sel.Sel.Name == "Sleep") || (pk.Imported().Path() == "runtime" && sel.Sel.Name == "Gosched") {
+				if (pk.Imported().Path() == "time" && sel.Sel.Name == "Sleep") || (pk.Imported().Path() == "runtime" && (sel.Sel.Name == "Gosched" || sel.Sel.Name == "SetFinalizer")) {
 					// only the callee is replaced; the package stays imported and
 					// used through the blank use appended to the file
 					edits = append(edits, edit{off: off(sel.Pos()), end: off(sel.End()), text: rtName + "." + sel.Sel.Name})
 					keepImports[pk.Name()] = pk.Imported().Path()
+					if sel.Sel.Name == "SetFinalizer" {
+						summary.Unsupported = append(summary.Unsupported, "runtime.SetFinalizer(never-run-under-the-simulator)@"+rel(x.Pos()))
+					}
 				}
 			}
 			s := p.TypesInfo.Selections[sel]
@@ -451,14 +454,14 @@ func instrumentFile(p *packages.Package, f *ast.File, src []byte, root string) [
 			switch {
 			case (rname == "Mutex" || rname == "RWMutex") && fn.Name() == "Lock":
 				if simple && len(x.Args) == 0 && !inConsumed(a, b) {
-					edits = append(edits, edit{off: a, end: b, text: fmt.Sprintf("%s.LockVia(%s.TryLock, %s.Lock)", rtName, xsrc, xsrc)})
+					edits = append(edits, edit{off: a, end: b, text: fmt.Sprintf("%s.LockVia2(%s, %s.TryLock, %s.Lock, %s.Unlock, false)", rtName, recvPointer(xsrc, p.TypesInfo.TypeOf(sel.X), s), xsrc, xsrc, xsrc)})
 					summary.LocksRewritten++
 				} else {
 					summary.LocksSkipped++
 				}
 			case rname == "RWMutex" && fn.Name() == "RLock":
 				if simple && len(x.Args) == 0 && !inConsumed(a, b) {
-					edits = append(edits, edit{off: a, end: b, text: fmt.Sprintf("%s.LockVia(%s.TryRLock, %s.RLock)", rtName, xsrc, xsrc)})
+					edits = append(edits, edit{off: a, end: b, text: fmt.Sprintf("%s.LockVia2(%s, %s.TryRLock, %s.RLock, %s.RUnlock, true)", rtName, recvPointer(xsrc, p.TypesInfo.TypeOf(sel.X), s), xsrc, xsrc, xsrc)})
 					summary.LocksRewritten++
 				} else {
 					summary.LocksSkipped++
@@ -491,6 +494,10 @@ func instrumentFile(p *packages.Package, f *ast.File, src []byte, root string) [
 				}
 				edits = append(edits, edit{off: a, end: off(x.Lparen) + 1, text: txt})
 				summary.WGRewritten++
+			case (rname == "Mutex" || rname == "RWMutex") && (fn.Name() == "Unlock" || fn.Name() == "RUnlock"):
+				if simple && len(x.Args) == 0 && !inConsumed(a, b) {
+					edits = append(edits, edit{off: a, end: b, text: fmt.Sprintf("%s.UnlockVia(%s, %s.%s)", rtName, recvPointer(xsrc, p.TypesInfo.TypeOf(sel.X), s), xsrc, fn.Name())})
+				}
 			case fn.Name() == "Unlock" || fn.Name() == "RUnlock" || fn.Name() == "TryLock" || fn.Name() == "TryRLock":
 			case rname == "Cond" && (fn.Name() == "Wait" || fn.Name() == "Signal" || fn.Name() == "Broadcast"):
 				if inConsumed(a, b) || len(x.Args) != 0 {
